@@ -5,6 +5,7 @@ import gen
 from vlib import fmt_list
 
 PID = 'C05'
+HANDLES_ABNORMAL = True
 PROFILES = ['debug', 'release']
 RULE = ('malformed-input stream for the decoding entry points, debug and release builds, panics caught: decode_data / decode_str on random '
         'bytes, every codeword value after every latch, truncated valid streams, ECI designators of every form followed by every byte; '
@@ -75,7 +76,11 @@ def gen_cases(rng, tier, ctx):
 def check_impl(c, out, ctx, prof):
     if c['cat'] == 'rs-wrong-length':
         return None     # decode_error documents the length as a precondition (panics in split_at_mut / succeeds on a prefix)
-    if out.startswith('panic') or out.startswith('crash') or out == 'not-run':
+    if out == 'timeout':
+        return 'decoding did not finish within the time limit (hang)'
+    if out == 'not-run':
+        return None
+    if out.startswith('panic') or out.startswith('crash'):
         return 'decoding panicked (%s build)' % prof
     return None
 
